@@ -1,7 +1,7 @@
 """C20 Fortran-callable bridge: factor once, solve many, free all  —  R3 oracle per iopt, R10 (caller arrays untouched), ledger iopt 1 <-> 3, R4, R1, R9."""
 from ..facts import Program, strip, const_value
 from ..run import Check, AnalysisBroken
-from ..rules import r3_dispatch as r3, r9_sibling, r10, r1_state
+from ..rules import r3_dispatch as r3, r9_sibling, r10, r1_state, kernels
 from ..rules.effects import PathEffects
 from . import _drv, c19
 from ._drv import Flags, Expect, ppos, DT
@@ -111,6 +111,7 @@ def run(tier):
         eff = PathEffects(prog)
         chk.clause('C20.D1', 'R3 oracle of the bridge per request')
         chk.clause('C20.D2', 'R10 caller arrays never written')
+        kernels.run_factor(chk, 'C20.kern', prog, cfgname)
         n = 0
         for p in _drv.PRECS:
             n += bridge_oracle(chk, 'C20.D1', prog, eff, p, cfgname)
